@@ -80,11 +80,62 @@ type member struct {
 	FinalFail  bool `json:"final_fail"` // the last attempt fails as well (final state "failed") instead of succeeding
 	Stream     int  `json:"stream"`     // 0 stdout, 1 stderr, 2 both interleaved, 3 both concurrent
 	Size       int  `json:"size"`       // bytes per active stream and attempt; stream 3: lines per stream and attempt
+	// redirect-file families (absent in older replay artefacts)
+	Pre      int  `json:"pre,omitempty"`       // the redirect files exist before the run: 1 = with 37 bytes, 2 = with more bytes than the whole run prints
+	SameFile bool `json:"same_file,omitempty"` // `stdout:` and `stderr:` name the same file
+	TwoSteps bool `json:"two_steps,omitempty"` // two steps, the second depending on the first, with the same settings (same redirect files); retries apply to the second
 }
 
 func (m member) String() string {
-	return fmt.Sprintf("stdoutFile=%v stderrFile=%v output=%v script=%v retries=%d finalFail=%v stream=%s size=%d",
+	s := fmt.Sprintf("stdoutFile=%v stderrFile=%v output=%v script=%v retries=%d finalFail=%v stream=%s size=%d",
 		m.StdoutFile, m.StderrFile, m.Output, m.Script, m.Retries, m.FinalFail, streamName[m.Stream], m.Size)
+	if m.SameFile {
+		s += " sameFile=true"
+	}
+	if m.TwoSteps {
+		s += " twoSteps=true"
+	}
+	if m.Pre != 0 {
+		s += fmt.Sprintf(" preexisting=%d", m.Pre)
+	}
+	return s
+}
+
+// skip: executions of the child before the step that carries the retry policy (the first step of a two-step member).
+func (m member) skip() int {
+	if m.TwoSteps {
+		return 1
+	}
+	return 0
+}
+
+// execs: planned executions of the child.
+func (m member) execs() int { return m.skip() + m.Retries + 1 }
+
+// preLen: bytes a pre-existing redirect file holds before the run.
+func (m member) preLen() int {
+	switch m.Pre {
+	case 1:
+		return 37
+	case 2:
+		return 3*(m.outBytes()+m.errBytes()) + 4097
+	}
+	return 0
+}
+
+// suffix: class segments of the redirect-file families.
+func (m member) suffix() string {
+	c := ""
+	if m.TwoSteps {
+		c += "/two-steps"
+	}
+	if m.SameFile {
+		c += "/same-file"
+	}
+	if m.Pre != 0 {
+		c += "/preexisting-file"
+	}
+	return c
 }
 
 // outBytes / errBytes: pattern bytes the last attempt writes per stream (newlines of the concurrent writers not counted).
@@ -170,7 +221,7 @@ func (m member) class() string {
 	if m.bigCapture() {
 		c += "/captured>64KiB"
 	}
-	return c
+	return c + m.suffix()
 }
 
 func (m member) trivial() bool {
@@ -179,7 +230,8 @@ func (m member) trivial() bool {
 
 // ---- patterns ---------------------------------------------------------------
 
-// alphabet of (attempt 1..3, stream 0|1): 11 printable characters, pairwise disjoint.
+// alphabet of (attempt 1..3, stream 0|1): 11 printable characters, pairwise disjoint;
+// "attempt" 4: the content a redirect file holds before the run (stream 0: stdout file, 1: stderr file).
 func alphabet(attempt, stream int) []byte {
 	j := (attempt-1)*2 + stream
 	a := make([]byte, 11)
@@ -243,7 +295,8 @@ type outcome struct {
 	stateOff bool // the node's final status is not what the last attempt's exit code says (counted, not a verdict)
 }
 
-func emitScript(dir string, failFirst int, concurrent bool) string {
+// emitScript: the child. Executions skip+1 .. skip+failFirst end with exit 1, all others with exit 0.
+func emitScript(dir string, skip, failFirst int, concurrent bool) string {
 	if concurrent {
 		// two writers side by side (p<attempt>.sh), one write(2) of one short line each time round the loop
 		var sb strings.Builder
@@ -254,7 +307,7 @@ func emitScript(dir string, failFirst int, concurrent bool) string {
 		sb.WriteString("echo $$ > $d/pid\n")
 		sb.WriteString(". $d/p$n.sh\n")
 		sb.WriteString("wait\n")
-		fmt.Fprintf(&sb, "if [ $n -le %d ]; then exit 1; fi\n", failFirst)
+		fmt.Fprintf(&sb, "if [ $n -gt %d ] && [ $n -le %d ]; then exit 1; fi\n", skip, skip+failFirst)
 		sb.WriteString("exit 0\n")
 		return sb.String()
 	}
@@ -268,7 +321,7 @@ func emitScript(dir string, failFirst int, concurrent bool) string {
 	sb.WriteString("  if [ -f $d/p$n.o.$i ]; then cat $d/p$n.o.$i; fi\n")
 	sb.WriteString("  if [ -f $d/p$n.e.$i ]; then cat $d/p$n.e.$i >&2; fi\n")
 	sb.WriteString("done\n")
-	fmt.Fprintf(&sb, "if [ $n -le %d ]; then exit 1; fi\n", failFirst)
+	fmt.Fprintf(&sb, "if [ $n -gt %d ] && [ $n -le %d ]; then exit 1; fi\n", skip, skip+failFirst)
 	sb.WriteString("exit 0\n")
 	return sb.String()
 }
@@ -404,7 +457,7 @@ func runMember(m member, dir string, idx int) (oc outcome) {
 		return
 	}
 	defer os.RemoveAll(dir)
-	for a := 1; a <= m.Retries+1; a++ {
+	for a := 1; a <= m.execs(); a++ {
 		if m.Stream == streamConc {
 			if err := writeConc(dir, a, m.Size); err != nil {
 				oc.checkErr = err.Error()
@@ -425,7 +478,7 @@ func runMember(m member, dir string, idx int) (oc outcome) {
 	if m.FinalFail {
 		failFirst = m.Retries + 1
 	}
-	script := emitScript(dir, failFirst, m.Stream == streamConc)
+	script := emitScript(dir, m.skip(), failFirst, m.Stream == streamConc)
 	// the step, as internal/dag/builder.go leaves it for `command: sh <file>` resp. `command: sh` + `script:`
 	step := dag.Step{Name: "emit", Dir: dir, Variables: []string{}, Depends: nil,
 		ExecutorConfig: dag.ExecutorConfig{Config: map[string]any{}}, Preconditions: []dag.Condition{}}
@@ -445,22 +498,54 @@ func runMember(m member, dir string, idx int) (oc outcome) {
 	}
 	if m.StderrFile {
 		step.Stderr = filepath.Join(dir, "err.txt")
+		if m.SameFile {
+			step.Stderr = step.Stdout
+		}
 	}
 	if m.Output {
 		step.Output = "C12_OUT"
 	}
+	// redirect files that exist before the run, with known content over alphabets of their own
+	var preOut, preErr []byte
+	if m.Pre != 0 {
+		if m.StdoutFile {
+			preOut = pattern(4, 0, m.preLen())
+			if err := os.WriteFile(step.Stdout, preOut, 0o644); err != nil {
+				oc.checkErr = err.Error()
+				return
+			}
+		}
+		if m.StderrFile {
+			if m.SameFile {
+				preErr = preOut
+			} else {
+				preErr = pattern(4, 1, m.preLen())
+				if err := os.WriteFile(step.Stderr, preErr, 0o644); err != nil {
+					oc.checkErr = err.Error()
+					return
+				}
+			}
+		}
+	}
+	steps := []dag.Step{step}
+	if m.TwoSteps {
+		// the same settings again in a second step that waits for the first; the retry policy is the second step's
+		step2 := step
+		step2.Name, step2.Depends = "emit2", []string{"emit"}
+		steps = append(steps, step2)
+	}
 	if m.Retries > 0 {
-		step.RetryPolicy = &dag.RetryPolicy{Limit: m.Retries, Interval: 0}
+		steps[len(steps)-1].RetryPolicy = &dag.RetryPolicy{Limit: m.Retries, Interval: 0}
 	}
 
-	g, err := scheduler.NewExecutionGraph(venv.Quiet, step)
+	g, err := scheduler.NewExecutionGraph(venv.Quiet, steps...)
 	if err != nil {
 		oc.checkErr = "NewExecutionGraph: " + err.Error()
 		return
 	}
 	reqID := fmt.Sprintf("c12m%05d", idx)
 	sc := scheduler.New(&scheduler.Config{LogDir: filepath.Join(dir, "logs"), Logger: venv.Quiet, ReqID: reqID})
-	d := &dag.DAG{Name: fmt.Sprintf("c12-%d", idx), Location: filepath.Join(dir, "dag.yaml"), Steps: []dag.Step{step}}
+	d := &dag.DAG{Name: fmt.Sprintf("c12-%d", idx), Location: filepath.Join(dir, "dag.yaml"), Steps: steps}
 	ctx, cancel := context.WithCancel(context.Background())
 	defer cancel()
 	ctx = dag.NewContext(ctx, d, nil, reqID, "")
@@ -515,13 +600,13 @@ func runMember(m member, dir string, idx int) (oc outcome) {
 		return
 	}
 	last := oc.attempts
-	node := g.Nodes()[0]
+	node := g.Nodes()[len(g.Nodes())-1] // the step that carries the retry policy
 	st := node.State()
 	// Only for captured volumes above one pipe capacity, with a retry: the first
 	// attempt's captured text sits in this process's environment (os.Setenv in
 	// Node.Execute); from 128 KiB on the relaunch cannot execve (E2BIG), so the
 	// last attempt never ran and printed nothing — nothing to look for.
-	if m.bigCapture() && m.Retries > 0 && oc.attempts < m.Retries+1 && st.Error != nil &&
+	if m.bigCapture() && m.Retries > 0 && oc.attempts < m.execs() && st.Error != nil &&
 		strings.Contains(st.Error.Error(), syscall.E2BIG.Error()) {
 		oc.noExec = true
 		oc.sample = map[string]any{"member": m.String(), "attempts": oc.attempts, "node_status": st.Status.String(),
@@ -530,7 +615,7 @@ func runMember(m member, dir string, idx int) (oc outcome) {
 	}
 	// informational (counted, no verdict): the final status against the exit code of the last attempt that ran
 	wantStatus := scheduler.NodeStatusSuccess
-	if last <= failFirst {
+	if last > m.skip() && last <= m.skip()+failFirst {
 		wantStatus = scheduler.NodeStatusError
 	}
 	oc.stateOff = st.Status != wantStatus
@@ -545,44 +630,119 @@ func runMember(m member, dir string, idx int) (oc outcome) {
 		}
 		return b, ""
 	}
-	check := func(file, path string, stream, n int) {
-		if n == 0 {
-			return
-		}
-		want := m.want(last, stream, n)
-		b, why := read(path)
-		got := project(b, alphabet(last, stream))
-		ok, at := containsInOrder(got, want)
-		if ok {
-			return
-		}
-		sig := fmt.Sprintf("C12/%s-missing-bytes/%s", file, m.class())
+	// sigOf: "<what>" is log-missing-bytes, stdout-file-missing-bytes, ...; the stderr file's class has no wiring segment
+	sigOf := func(file, what string) string {
 		if file == "stderr-file" {
-			sig = fmt.Sprintf("C12/%s-missing-bytes/%s", file, m.retriesClass())
+			sig := fmt.Sprintf("C12/%s-%s/%s", file, what, m.retriesClass())
 			if m.FinalFail {
 				sig += "/final-failed"
 			}
+			return sig + m.suffix()
+		}
+		return fmt.Sprintf("C12/%s-%s/%s", file, what, m.class())
+	}
+	// check: the file holds, in order, what execution a of the child wrote to the stream
+	check := func(file, path string, stream, n, a int, nst scheduler.NodeState) bool {
+		if n == 0 {
+			return true
+		}
+		want := m.want(a, stream, n)
+		b, why := read(path)
+		got := project(b, alphabet(a, stream))
+		ok, at := containsInOrder(got, want)
+		if ok {
+			return true
 		}
 		if why == "" {
-			why = fmt.Sprintf("file has %d bytes, %d of them from attempt %d's %s", len(b), len(got), last, streamName[stream])
+			why = fmt.Sprintf("file has %d bytes, %d of them from attempt %d's %s", len(b), len(got), a, streamName[stream])
 		}
-		oc.viol = append(oc.viol, vlib.Violation{Signature: sig,
-			Detail: fmt.Sprintf("%s: attempt %d (the last; node status %q, error %q, retryCount %d) wrote %d bytes to %s; the %s %s lacks them from offset %d on (%s)",
-				m, last, st.Status, fmt.Sprint(st.Error), st.RetryCount, n, streamName[stream], file, filepath.Base(path), at, why),
+		which := "the last"
+		if a != last {
+			which = "the first step's only one"
+		}
+		oc.viol = append(oc.viol, vlib.Violation{Signature: sigOf(file, "missing-bytes"),
+			Detail: fmt.Sprintf("%s: attempt %d (%s; node status %q, error %q, retryCount %d) wrote %d bytes to %s; the %s %s lacks them from offset %d on (%s)",
+				m, a, which, nst.Status, fmt.Sprint(nst.Error), nst.RetryCount, n, streamName[stream], file, filepath.Base(path), at, why),
+			Replay: m})
+		return false
+	}
+	// checkAll (redirect files): the file holds what EVERY execution of the child
+	// (every attempt; both steps of a two-step member) wrote to the stream, one
+	// execution after the other — the files are opened for appending.  Looked at
+	// only when the last execution's bytes are there (else that is the finding).
+	checkAll := func(file, path string, stream, n int) {
+		if n == 0 || last < 2 {
+			return
+		}
+		var want, alpha []byte
+		for a := 1; a <= last; a++ {
+			want = append(want, m.want(a, stream, n)...)
+			alpha = append(alpha, alphabet(a, stream)...)
+		}
+		b, why := read(path)
+		got := project(b, alpha)
+		ok, at := containsInOrder(got, want)
+		if file == "stdout-file" {
+			oc.earlier = ok
+		}
+		if ok {
+			return
+		}
+		if why == "" {
+			why = fmt.Sprintf("file has %d bytes, %d of them from the %d executions' %s", len(b), len(got), last, streamName[stream])
+		}
+		oc.viol = append(oc.viol, vlib.Violation{Signature: sigOf(file, "missing-earlier-bytes"),
+			Detail: fmt.Sprintf("%s: the child ran %d times (node status %q, error %q, retryCount %d) and wrote %d bytes to %s each time, over a different alphabet each time; the %s %s holds the last execution's bytes but lacks those of execution %d from offset %d on (%s)",
+				m, last, st.Status, fmt.Sprint(st.Error), st.RetryCount, n, streamName[stream], file, filepath.Base(path), at/n+1, at%n, why),
 			Replay: m})
 	}
-	check("log", st.Log, streamOut, m.outBytes())
+	// checkPre: what the redirect file held before the run is still there, in front of what the run appended
+	checkPre := func(file, path string, pre []byte) {
+		if len(pre) == 0 {
+			return
+		}
+		b, why := read(path)
+		if bytes.HasPrefix(b, pre) {
+			return
+		}
+		k := 0
+		for k < len(b) && k < len(pre) && b[k] == pre[k] {
+			k++
+		}
+		if why == "" {
+			why = fmt.Sprintf("file has %d bytes now, the first difference is at offset %d", len(b), k)
+		}
+		oc.viol = append(oc.viol, vlib.Violation{Signature: sigOf(file, "earlier-content-lost"),
+			Detail: fmt.Sprintf("%s: the %s %s held %d bytes before the run (output of an earlier run); after the run it does not begin with them (%s)",
+				m, file, filepath.Base(path), len(pre), why),
+			Replay: m})
+	}
+	if m.TwoSteps {
+		// the first step ran once (execution 1) and is finished: its log holds what it printed
+		st1 := g.Nodes()[0].State()
+		check("log", st1.Log, streamOut, m.outBytes(), 1, st1)
+		if !m.StderrFile {
+			check("log", st1.Log, streamErr, m.errBytes(), 1, st1)
+		}
+	}
+	if !m.TwoSteps || last > 1 {
+		check("log", st.Log, streamOut, m.outBytes(), last, st)
+		if !m.StderrFile {
+			check("log", st.Log, streamErr, m.errBytes(), last, st)
+		}
+	}
 	if m.StderrFile {
-		check("stderr-file", step.Stderr, streamErr, m.errBytes())
-	} else {
-		check("log", st.Log, streamErr, m.errBytes())
+		if check("stderr-file", step.Stderr, streamErr, m.errBytes(), last, st) {
+			checkAll("stderr-file", step.Stderr, streamErr, m.errBytes())
+		}
+		checkPre("stderr-file", step.Stderr, preErr)
 	}
 	if m.StdoutFile {
-		check("stdout-file", step.Stdout, streamOut, m.outBytes())
-		if last > 1 && m.outBytes() > 0 {
-			b, _ := read(step.Stdout)
-			ok, _ := containsInOrder(project(b, alphabet(1, streamOut)), m.want(1, streamOut, m.outBytes()))
-			oc.earlier = ok
+		if check("stdout-file", step.Stdout, streamOut, m.outBytes(), last, st) {
+			checkAll("stdout-file", step.Stdout, streamOut, m.outBytes())
+		}
+		if !(m.SameFile && m.StderrFile) {
+			checkPre("stdout-file", step.Stdout, preOut)
 		}
 	}
 	lb, _ := read(st.Log)
@@ -662,6 +822,72 @@ func enumerate(thorough bool) (all []member) {
 			}
 		}
 	}
+	all = append(all, redirectFamilies(thorough)...)
+	return
+}
+
+// redirectFamilies: members about the life of the `stdout:` / `stderr:` files
+// beyond one execution into a fresh file.
+//
+//	E  the redirect files exist before the run (37 bytes / more bytes than the run prints)
+//	F  `stdout:` and `stderr:` name the same file (fresh / pre-existing)
+//	G  two steps, the second depending on the first, with the same redirect files (fresh / pre-existing)
+//
+// quick: command, retries {0,1}, last attempt succeeds; thorough: x {script | command} x retries {0,1,2} (G: {0,1}) x final state.
+func redirectFamilies(thorough bool) (all []member) {
+	b := []bool{false, true}
+	szs := []int{1, 4097, 32769}
+	if thorough {
+		szs = []int{1, 4096, 4097, 32769, 65537}
+	}
+	for _, fam := range []string{"E", "F", "G"} {
+		for _, so := range b {
+			for _, se := range b {
+				switch fam {
+				case "E":
+					if !so && !se {
+						continue
+					}
+				case "F":
+					if !so || !se {
+						continue
+					}
+				case "G":
+					if !so {
+						continue
+					}
+				}
+				for _, ov := range b {
+					for _, scr := range b {
+						for r := 0; r <= 2; r++ {
+							for _, ff := range b {
+								if !thorough && (scr || r == 2 || ff) {
+									continue
+								}
+								if fam == "G" && r == 2 {
+									continue // three executions at most: alphabets exist for three
+								}
+								for s := 0; s <= 2; s++ {
+									for _, n := range szs {
+										for pre := 0; pre <= 2; pre++ {
+											if fam == "E" && pre == 0 {
+												continue // the main product
+											}
+											if fam == "G" && pre == 2 && !thorough {
+												continue
+											}
+											all = append(all, member{StdoutFile: so, StderrFile: se, Output: ov, Script: scr, Retries: r, FinalFail: ff,
+												Stream: s, Size: n, Pre: pre, SameFile: fam == "F", TwoSteps: fam == "G"})
+										}
+									}
+								}
+							}
+						}
+					}
+				}
+			}
+		}
+	}
 	return
 }
 
@@ -698,6 +924,7 @@ type childOut struct {
 	Sample   map[string]any   `json:"sample"`
 	NoExec   bool             `json:"no_exec"`
 	StateOff bool             `json:"state_off"`
+	Earlier  bool             `json:"earlier"`
 }
 
 // runIsolated executes a member R times, each time in a process of its own.
@@ -770,7 +997,7 @@ func runIsolated(m member, dir string, idx, R int, vary bool) (oc outcome) {
 			return
 		}
 		oc.attempts, oc.sample = co.Attempts, co.Sample
-		oc.noExec, oc.stateOff = co.NoExec, co.StateOff
+		oc.noExec, oc.stateOff, oc.earlier = co.NoExec, co.StateOff, co.Earlier
 		if co.CheckErr != "" {
 			oc.checkErr = co.CheckErr
 			return
@@ -821,7 +1048,7 @@ func main() {
 			}
 			oc := runMember(rp.Replay, fl.Work, idx)
 			b, _ := json.Marshal(childOut{Attempts: oc.attempts, Viol: oc.viol, CheckErr: oc.checkErr, Sample: oc.sample,
-				NoExec: oc.noExec, StateOff: oc.stateOff})
+				NoExec: oc.noExec, StateOff: oc.stateOff, Earlier: oc.earlier})
 			if err := os.WriteFile(of, b, 0o644); err != nil {
 				fmt.Fprintln(os.Stderr, err)
 				os.Exit(2)
@@ -850,6 +1077,7 @@ func main() {
 			}
 		}
 		res.Bounds["members_with_output_capture_gt_64KiB"] = big
+		res.Bounds["redirect_file_family_members(preexisting|same-file|two-steps)"] = len(redirectFamilies(fl.Thorough()))
 	}
 
 	workers := 4
@@ -900,7 +1128,7 @@ func main() {
 		if !oc.m.trivial() {
 			res.Nontrivial(vlib.Hash(oc.m.String()))
 		}
-		if oc.attempts != 0 && oc.attempts != oc.m.Retries+1 {
+		if oc.attempts != 0 && oc.attempts != oc.m.execs() {
 			res.Count("attempts_differ_from_plan", 1)
 		}
 		if oc.m.bigCapture() {
